@@ -589,8 +589,9 @@ Qed.
 (* replace_only_named *)
 
 (* the guard excludes exactly the open finding F-C12-replace-nth (an occurrence number on a weekday of a
-   rule with freq > MONTHLY, and a new freq <= MONTHLY, byweekday itself not named) and the harmless
-   truthiness corner bysetpos=() (recorded as absent: None instead of (), same occurrences) *)
+   rule with freq > MONTHLY, and a new freq <= MONTHLY, byweekday itself not named) and the truthiness corner
+   bysetpos=() (recorded as absent: None instead of ()), which is not a finding and is PROVED separately at the
+   end of this file: replace_setpos_empty + normalize_setpos_empty *)
 Definition replace_guard (r : raw) (u : upd) : Prop :=
   (u_bysetpos u <> None \/ r_bysetpos r <> Some []) /\
   (u_byweekday u <> None \/ wd_guard r (ov (u_freq u) (r_freq r))).
@@ -672,3 +673,89 @@ Proof.
   - reflexivity.
   - eexists. split; [vm_compute; reflexivity | reflexivity].
 Qed.
+
+(* ------------------------------------------------------------------------------------------ *)
+(* the bysetpos=() corner of replace_guard, PROVED instead of excluded.
+   A rule built with bysetpos=() records nothing (`if bysetpos:` is false, rrule.py 504), so replace() re-runs
+   the constructor with bysetpos omitted: the result is EXACTLY the rule built from the original arguments with
+   bysetpos omitted and the named ones changed (replace_setpos_empty), and that rule differs from the one the
+   property demands in the single attribute `_bysetpos` (None instead of ()), errors included
+   (normalize_setpos_empty).  rr/RRIter.v reads `bysetpos` only through `truthy` (346, 382: `if bysetpos and
+   timeset`, `if freq == WEEKLY and bysetpos`-style tests), and truthy None = truthy (Some []) = false; the
+   occurrences are compared by the replace stream (base rule with bysetpos=()). *)
+Definition clear_setpos (r : raw) : raw :=
+  mkRaw (r_freq r) (r_isdate r) (r_y r) (r_m r) (r_d r) (r_H r) (r_M r) (r_S r) (r_interval r) (r_wkst r)
+        (r_count r) (r_until r) (r_tzmix r) None (r_bymonth r) (r_bymonthday r) (r_byyearday r) (r_byeaster r)
+        (r_byweekno r) (r_byweekday r) (r_byhour r) (r_byminute r) (r_bysecond r).
+
+Definition rule_clear_setpos (ru : rule) : rule :=
+  mkRule (freq ru) (interval ru) (wkst ru) (count ru) (until ru) (s_y ru) (s_m ru) (s_d ru) (s_H ru) (s_M ru)
+         (s_S ru) None (bymonth ru) (byyearday ru) (byeaster ru) (bymonthday ru) (bynmonthday ru) (byweekno ru)
+         (byweekday ru) (bynweekday ru) (byhour ru) (byminute ru) (bysecond ru) (timeset ru).
+
+Lemma rebuild_setpos_empty : forall r, r_bysetpos r = Some [] -> rebuild r = rebuild (clear_setpos r).
+Proof. intros r H. unfold rebuild, record, clear_setpos. rewrite H. reflexivity. Qed.
+
+Lemma wd_guard_clear : forall r f, wd_guard r f -> wd_guard (clear_setpos r) f.
+Proof. intros r f H. exact H. Qed.
+
+Lemma apply_upd_clear : forall r u, u_bysetpos u = None ->
+  apply_upd (clear_setpos r) u = clear_setpos (apply_upd r u).
+Proof.
+  intros r u H. unfold apply_upd, clear_setpos. cbn [r_freq r_isdate r_y r_m r_d r_H r_M r_S r_interval r_wkst
+    r_count r_until r_tzmix r_bysetpos r_bymonth r_bymonthday r_byyearday r_byeaster r_byweekno r_byweekday
+    r_byhour r_byminute r_bysecond]. rewrite H.
+  destruct (ov (u_dtstart u) (r_isdate r, (r_y r, r_m r, r_d r), (r_H r, r_M r, r_S r))) as [[isd [[y m] d]] [[hh mm] ss]].
+  reflexivity.
+Qed.
+
+Theorem replace_setpos_empty : forall r u,
+  r_bysetpos r = Some [] -> u_bysetpos u = None ->
+  (u_byweekday u <> None \/ wd_guard r (ov (u_freq u) (r_freq r))) ->
+  replace r u = replace_spec (clear_setpos r) u.
+Proof.
+  intros r u Hs Hu Gw. unfold replace, replace_raw. rewrite (rebuild_setpos_empty r Hs).
+  apply (replace_only_named (clear_setpos r) u). split.
+  - right. cbn. discriminate.
+  - destruct Gw as [Gw|Gw]; [left; exact Gw | right; exact Gw].
+Qed.
+
+Theorem normalize_setpos_empty : forall x, r_bysetpos x = Some [] ->
+  normalize (clear_setpos x) =
+  match normalize x with Ok ru => Ok (rule_clear_setpos ru) | Err e => Err e end.
+Proof.
+  intros x H. rewrite (normalize2_eq x), (normalize2_eq (clear_setpos x)).
+  destruct x as [fr isd y m d hh0 mm0 ss0 itv wk cnt unt tzm sp bm bmd byd be bwn bwd bh bmi bs].
+  cbn [r_bysetpos] in H. subst sp. unfold normalize2, clear_setpos.
+  cbn [r_freq r_isdate r_y r_m r_d r_H r_M r_S r_interval r_wkst r_count r_until r_tzmix r_bysetpos r_bymonth
+       r_bymonthday r_byyearday r_byeaster r_byweekno r_byweekday r_byhour r_byminute r_bysecond].
+  cbn [v_setpos_ok setpos_ok forallb negb].
+  destruct (if isd then (0, 0, 0) else (hh0, mm0, ss0)) as [[hh mm] ss].
+  destruct (negb (is_none unt) && tzm); [reflexivity|].
+  match goal with |- context [v_wd ?a ?b] => destruct (v_wd a b) as [w1 w2] end.
+  unfold bind.
+  repeat match goal with |- context [match ?e with Ok _ => _ | Err _ => _ end] =>
+    lazymatch e with
+    | match _ with _ => _ end => fail
+    | _ => destruct e; try reflexivity
+    end end.
+  all: destruct (HOURLY <=? fr); reflexivity.
+Qed.
+
+Theorem replace_setpos_corner : forall r u,
+  r_bysetpos r = Some [] -> u_bysetpos u = None ->
+  (u_byweekday u <> None \/ wd_guard r (ov (u_freq u) (r_freq r))) ->
+  replace r u = replace_spec (clear_setpos r) u /\
+  apply_upd (clear_setpos r) u = clear_setpos (apply_upd r u).
+Proof.
+  intros r u Hs Hu Gw. split; [exact (replace_setpos_empty r u Hs Hu Gw) | exact (apply_upd_clear r u Hu)].
+Qed.
+
+(* non-vacuity: rrule(WEEKLY, bysetpos=(), byweekday=(MO,WE)).replace(interval=2) *)
+Example replace_setpos_example :
+  let r := mkRaw WEEKLY false 1997 9 2 9 0 0 1 0 (Some 3) None false (Some []) None None None None None
+                 (Some [(0, 0); (2, 0)]) None None None in
+  let u := mkUpd None None (Some 2) None None None None None None None None None None None None None None in
+  (exists ru, replace r u = Ok ru /\ bysetpos ru = None /\ interval ru = 2) /\
+  (exists ru', replace_spec r u = Ok ru' /\ bysetpos ru' = Some []).
+Proof. split; eexists; (split; [vm_compute; reflexivity|]); repeat split. Qed.
